@@ -1,6 +1,7 @@
 package main
 
 import (
+	"strings"
 	"encoding/json"
 	"flag"
 	"fmt"
@@ -25,7 +26,26 @@ func main() {
 	out := flag.String("out", "", "directory for evidence/replay output (default <verif>/evidence)")
 	explain := flag.String("explain", "", "print a replay file")
 	list := flag.Bool("list", false, "list properties")
+	vocabOut := flag.Bool("vocab", false, "print the function vocabulary of the tree (for spec/vocabulary.txt)")
+	keepNorm := flag.Bool("keep-normalised", false, "print and keep the directory of the normalised copy (debugging)")
 	flag.Parse()
+	if *vocabOut {
+		pkgs, err := loadSyntax(*repo)
+		if err != nil {
+			fmt.Println(err)
+			os.Exit(2)
+		}
+		var names []string
+		for _, c := range newFunctions(pkgs, map[string]bool{}) {
+			names = append(names, c.name)
+		}
+		sort.Strings(names)
+		fmt.Println("# functions of the reference tree the rules were written and confirmed against (hlcheck -vocab)")
+		for _, n := range names {
+			fmt.Println(n)
+		}
+		return
+	}
 	if *explain != "" {
 		b, err := os.ReadFile(*explain)
 		if err != nil {
@@ -65,20 +85,89 @@ func main() {
 	if s := os.Getenv("VERIF_SEED"); s != "" {
 		seed, _ = strconv.Atoi(s)
 	}
-	f, ok := props[*prop]
-	if !ok {
+	var todo []string
+	if *prop == "all" {
+		for id := range props {
+			todo = append(todo, id)
+		}
+		sort.Strings(todo)
+	} else if _, ok := props[*prop]; ok {
+		todo = []string{*prop}
+	} else {
 		fmt.Printf("CHECKER-ERROR unknown property %q\n", *prop)
 		os.Exit(2)
 	}
 	start := time.Now()
-	P, err := loadProg(*repo, "")
+	// functions that are not in the vocabulary are expanded in a scratch copy first (normalise.go)
+	analysed := *repo
+	var norm *normInfo
+	normNote := ""
+	if vocab, verr := readVocabulary(*verif); verr != nil {
+		normNote = "vocabulary not readable (" + verr.Error() + "): the tree is analysed as it is."
+	} else if ni, nerr := normalise(*repo, vocab); nerr != nil {
+		normNote = "the normalised view could not be built (" + nerr.Error() + "): the tree is analysed as it is."
+		if ni != nil {
+			os.RemoveAll(ni.dir)
+		}
+	} else if ni != nil {
+		norm = ni
+		analysed = ni.dir
+		if *keepNorm {
+			fmt.Println("normalised copy:", ni.dir)
+		}
+	}
+	cleanup := func() {
+		if norm != nil && !*keepNorm {
+			os.RemoveAll(norm.dir)
+		}
+	}
+	P, err := loadProg(analysed, "")
+	if err != nil && norm != nil {
+		normNote = "the normalised copy does not load (" + err.Error() + "): the tree is analysed as it is."
+		os.RemoveAll(norm.dir)
+		norm = nil
+		P, err = loadProg(*repo, "")
+	}
 	if err != nil {
 		// The tree does not load or type-check: no verdict can be given for it.
 		fmt.Printf("CHECKER-ERROR %v\n", err)
+		cleanup()
 		os.Exit(2)
 	}
 	specDir = *verif + "/spec"
-	R := &Run{P: P, Prop: *prop, Tier: *tier, floors: map[string]int{}, rules: map[string]string{}, start: start, fnsSeen: map[string]bool{}}
+	if *out == "" {
+		*out = *verif + "/evidence"
+	}
+	worst := 0
+	for _, pid := range todo {
+		if len(todo) > 1 {
+			fmt.Println("== " + pid)
+		}
+		t0 := time.Now()
+		if len(todo) == 1 {
+			t0 = start
+		}
+		rc := runProp(P, pid, props[pid], *tier, analysed, norm, normNote, *verif, *out, seed, t0)
+		if rc > worst {
+			worst = rc
+		}
+	}
+	_ = start
+	cleanup()
+	os.Exit(worst)
+}
+
+func runProp(P *Prog, prop string, f func(*Run), tierV string, analysed string, norm *normInfo, normNote, verifDir, outDir string, seed int, start time.Time) int {
+	tier, repo, verif, out := &tierV, &analysed, &verifDir, &outDir
+	_ = verif
+	R := &Run{P: P, Prop: prop, Tier: *tier, floors: map[string]int{}, rules: map[string]string{}, start: start, fnsSeen: map[string]bool{}}
+	if norm != nil {
+		P.norm = norm
+		R.note(fmt.Sprintf("normalised view: %d functions outside the reference vocabulary (%s); %d call sites expanded in %d rounds, %d helpers removed after expansion; not expanded: %v.", len(norm.NewFuncs), strings.Join(norm.NewFuncs, ", "), len(norm.Inlined), norm.Rounds, len(norm.Removed), norm.Left))
+	}
+	if normNote != "" {
+		R.note(normNote)
+	}
 	func() {
 		defer func() {
 			if r := recover(); r != nil {
@@ -100,7 +189,8 @@ func main() {
 				R.und("build-config", "GOOS="+goos, "-", "the tree does not load under GOOS="+goos+": "+err.Error())
 				continue
 			}
-			R2 := &Run{P: P2, Prop: *prop, Tier: *tier, floors: map[string]int{}, rules: map[string]string{}, start: start, fnsSeen: map[string]bool{}}
+			P2.norm = norm
+			R2 := &Run{P: P2, Prop: prop, Tier: *tier, floors: map[string]int{}, rules: map[string]string{}, start: start, fnsSeen: map[string]bool{}}
 			func() {
 				defer func() {
 					if r := recover(); r != nil {
@@ -122,10 +212,7 @@ func main() {
 			R.note(fmt.Sprintf("GOOS=%s: %d obligations evaluated, %d differing from the primary configuration.", goos, len(R2.Obls), differ))
 		}
 	}
-	if *out == "" {
-		*out = *verif + "/evidence"
-	}
-	os.Exit(R.finish(*verif, *out, seed))
+	return R.finish(*verif, *out, seed)
 }
 
 var specDir string
